@@ -1244,6 +1244,22 @@ func (bf *boundsFunc) callResultFacts(s *bstate, lhs []ast.Expr, r ast.Expr) {
 		up = up.add(ln, -1)
 		up.c += w
 		s.addLE(up) // i + w - len ≤ 0
+	case (pk == "strings" || pk == "bytes") && (fn.Name() == "CutPrefix" || fn.Name() == "CutSuffix") && len(c.Args) == 2 && len(lhs) == 2:
+		// rest, ok := CutPrefix(s, p): when ok, len(rest) + len(p) == len(s); always len(rest) ≤ len(s)
+		restK, okr := bf.pathKey(lhs[0])
+		okK, okb := bf.pathKey(lhs[1])
+		ls, ok1 := bf.lenOf(c.Args[0])
+		lp, ok2 := bf.lenOf(c.Args[1])
+		if !okr || !ok1 {
+			return
+		}
+		rest := newLin()
+		rest.t["len("+restK+")"] = 1
+		s.addLE(rest.add(ls, -1)) // len(rest) - len(s) ≤ 0
+		if okb && ok2 {
+			eq := rest.add(lp, 1).add(ls, -1) // len(rest) + len(p) - len(s)
+			s.bv["v:"+okK] = &boolFacts{t: []lin{eq, newLin().add(eq, -1)}}
+		}
 	case pk == "unicode/utf8" && (fn.Name() == "DecodeRune" || fn.Name() == "DecodeRuneInString" || fn.Name() == "DecodeLastRune" || fn.Name() == "DecodeLastRuneInString"):
 		if len(c.Args) != 1 {
 			return
